@@ -1,4 +1,5 @@
 import ElkVerif.Proofs.MiniSoundBMain
+import ElkVerif.Proofs.MiniSoundBEmbed
 /-!
 # C01 / C02, stages B–D — accepted programs never crash the interpreter; values have their static types
 
@@ -149,6 +150,17 @@ theorem preservation_B (k : Nat) (p : Prog) (h : checkProg k p = true) (fuel : N
     rw [hv] at ho
     exact ho
 
+/-- **The extended checker extends stage A**: whatever `check` (Props/C01) accepts, `checkExpr`
+accepts with the corresponding type, at the same fuel, for any method table. -/
+theorem checker_extends_A (defs : List Def) (g : TEnv) (k : Nat) (e : Expr) (t : STy)
+    (h : check g k e = some t) : checkExpr defs k (TEnv.toB g) e = some t.toT :=
+  check_embeds defs g k e t h
+
+/-- … and the two value typings agree on stage-A types -/
+theorem hasTy_extends_A (defs : List Def) (S : List T) (v : Val) (t : STy) :
+    v.hasTy t = true ↔ HasTy defs S v t.toT :=
+  hasTy_embeds defs S v t
+
 -- ---------------------------------------------------------------- non-vacuity
 /-! The checker accepts non-trivial programs (the hypotheses `StOk`/`EnvOkB` of the block theorems
 are met by the empty store and environment, which is how `prog_sound` uses them):
@@ -196,4 +208,24 @@ example : checkProg 30 { modName := "P", defs := [], main := [.decl "x" none (.i
 example : checkProg 30 { modName := "P", defs := [], main := [.brk none] } = false := by decide
 example : checkProg 30 { modName := "P", defs := [], main := [.ret (.int 1)] } = false := by decide
 example : checkProg 30 { modName := "P", defs := [factDef], main := [.expr (.callDef "fact" [])] } = false := by decide
+
+/-- the hypotheses of the block/statement/expression theorems at a non-empty state: a store with a
+nil `Int?` cell and an `Int` cell, an environment naming them, and a statement typed in it -/
+example : StOk [] [.opt .int, .int] { store := [.nil, .int 4] } := by
+  refine ⟨rfl, fun i v t hv ht => ?_⟩
+  match i with
+  | 0 => simp at hv ht; subst hv; subst ht; simp [HasTy]
+  | 1 => simp at hv ht; subst hv; subst ht; simp [HasTy]
+  | _ + 2 => simp at hv
+example : EnvOkB [.opt .int, .int] [("z", .opt .int), ("x", .int)] [("z", 0), ("x", 1)] := by
+  intro y t h
+  simp only [lookupT] at h
+  split at h
+  · rename_i hy; simp at hy; subst hy; cases h; exact ⟨0, by simp [lookup], rfl⟩
+  · split at h
+    · rename_i hy; simp at hy; subst hy; cases h; exact ⟨1, by simp [lookup], rfl⟩
+    · cases h
+example : (checkStmt [] 10 ⟨[("z", .opt .int), ("x", .int)], [], none⟩
+    (.expr (.assign "z" (.bin .add (.nilco (.var "z") (.int 7)) (.var "x"))))).isSome = true := by decide
+
 end Elk.C01B
